@@ -2,5 +2,5 @@ CONSTANTS MaxDepth = 2  MaxKids = 2
   Leaves <- LeavesSmall
 INIT Init
 NEXT Next
-INVARIANTS NoSilentLoss NoPanic
+INVARIANTS NoSilentLoss NoPanic StrandByOrderOK
 CHECK_DEADLOCK FALSE
